@@ -18,7 +18,7 @@ from cryptoparser.common.base import (
     StringEnumParsable,
     VariantParsable
 )
-from cryptoparser.common.exception import InvalidType
+from cryptoparser.common.exception import InvalidType, NotEnoughData
 
 from cryptoparser.common.field import (
     FieldValueComponentParsable,
@@ -455,6 +455,10 @@ class DnsRecordTxtValueSpfModifierKnownBase(FieldValueComponentParsable):
         return cls.get_modifier().value.code
 
     @classmethod
+    def _check_name(cls, name):
+        cls._check_name_insensitive(name)
+
+    @classmethod
     def _get_value_class(cls):
         return SpfDomainSpec
 
@@ -490,11 +494,13 @@ class DnsRecordTxtValueSpfDirectiveBase(ParsableBase, Serializable):
         except InvalidValue:
             pass
 
-        mechanism = cls.get_mechanism()
+        mechanism_name = cls.get_mechanism().value.code
         try:
-            parser.parse_string('mechanism', mechanism.value.code)
-        except InvalidValue as e:
+            parser.parse_string_by_length('mechanism', len(mechanism_name), len(mechanism_name))
+        except (InvalidValue, NotEnoughData) as e:
             six.raise_from(InvalidType, e)
+        if parser['mechanism'].lower() != mechanism_name:
+            raise InvalidType()
 
         return parser
 
